@@ -325,7 +325,27 @@ def c19():
     return bitseq_obs('C19')
 
 
-TABLE = {'C01': c01, 'C02': c02, 'C03': c03, 'C04': c04, 'C06': c06, 'C07': c07, 'C08': c08, 'C12': c12, 'C13': c13, 'C14': c14,
+def pool_ob(name, prop, w, t, k, unwind, tier=Q, timeout=1500, variant=None, **kw):
+    defs = {'W': w, 'T': t}
+    if variant: defs[variant] = None
+    cdefs = {'VERIF_MAXT': w + 1, 'VERIF_K': k, 'VERIF_MAXM': 2 + w + 1, 'IR2C_MAXELEMS': 16, 'IR2C_MAXBYTES': 16}
+    return O(name, prop, 'h_pool.cpp', 'h_pool', [], defs=defs, cdefs=cdefs, unwind=unwind, tier=tier, timeout=timeout, engine='E2', e2_setup='h_pool_setup', mem_gb=8,
+             bounds='%d worker(s), %d task(s)%s, every schedule with at most %d context switches (pre-emption at lock/wait/join points), loops unwound %d times (checked)' %
+                    (w, t, ', last task stops the pool' if variant else '', k - 1, unwind), **kw)
+
+
+def c10():
+    obs = []
+    obs.append(pool_ob('c10.pool.w1.t1.k5', 'C10', 1, 1, 5, 4))
+    obs.append(pool_ob('c10.pool.w1.t0.k4', 'C10', 1, 0, 4, 3))
+    obs.append(pool_ob('c10.pool.w1.t1.k5.laststops', 'C10', 1, 1, 5, 4, variant='LAST_TASK_STOPS'))
+    obs.append(pool_ob('c10.pool.w1.t2.k6', 'C10', 1, 2, 6, 5, tier=T, timeout=7200))
+    obs.append(pool_ob('c10.pool.w2.t1.k5', 'C10', 2, 1, 5, 4, tier=T, timeout=7200))
+    obs.append(pool_ob('c10.pool.w2.t0.k5', 'C10', 2, 0, 5, 3, tier=T, timeout=7200))
+    return obs
+
+
+TABLE = {'C10': c10, 'C01': c01, 'C02': c02, 'C03': c03, 'C04': c04, 'C06': c06, 'C07': c07, 'C08': c08, 'C12': c12, 'C13': c13, 'C14': c14,
          'C15': c15, 'C16': c16, 'C17': c17, 'C19': c19}
 
 
